@@ -98,6 +98,18 @@ def lib_sweep_cases(rnd, n, stdlib):
         {"op": "analyze", "path": "/vi/test_x.py", "text": "def test_x(fa, fb):\n    pass\n"},
         {"op": "imported", "path": "/vi/conftest.py"}, {"op": "imported", "path": "/vi/a.py"}, {"op": "available", "path": "/vi/test_x.py"},
         {"op": "goto", "path": "/vi/test_x.py", "line": 0, "col": 11}, {"op": "cycles"}, {"op": "cli"}]})
+    # modules over every documented syntax form (generator P: compound parametrize argnames with a name
+    # embedded in longer identifiers once, twice, as prefix / suffix; strings, marks, class nesting ...) and a
+    # few fixed argnames literals that make the whole-word search reject several occurrences in a row
+    import pgen
+    for j in range(3 * n):
+        text, _ = pgen.gen_program(rnd)
+        cases.append({"id": 4000 + j, "ops": [{"op": "analyze", "path": "/vp/test_p%d.py" % j, "text": text}, {"op": "available", "path": "/vp/test_p%d.py" % j}]})
+    for j, names in enumerate(["user_id,id_type,id", "xs,x", "db_db,db", "a_db,db_a,a_db_a,db", "iddb,dbid,db", "db,db_db,db"]):
+        nm = names.split(",")[-1]
+        text = ("import pytest\n\n@pytest.fixture\ndef %s():\n    return 1\n\n@pytest.mark.parametrize(\"%s\", [(1,) * %d], indirect=True)\ndef test_e(%s):\n    pass\n"
+                % (nm, names, names.count(",") + 1, names))
+        cases.append({"id": 4900 + j, "ops": [{"op": "analyze", "path": "/vp/test_embedded%d.py" % j, "text": text}, {"op": "dump"}]})
     # more analysed files than the text cache holds: the eviction at the end of an analysis runs
     # (seed S28: removing entries while iterating over the same map)
     cases.append({"id": 3000, "ops": [{"op": "analyze", "path": "/vbig/d%d/test_f%d.py" % (k % 7, k), "text": "def test_%d(x):\n    pass\n" % k}
